@@ -80,11 +80,11 @@ func r142Fidelity(c *an.Ctx) {
 		if f == nil {
 			continue
 		}
-		info := f.Pkg.TypesInfo
 		n := 0
 		var probs []string
 		arrayGuarded := map[string]string{}
-		ast.Inspect(f.Decl.Body, func(nd ast.Node) bool {
+		c.InspectAll(f, func(hf *an.Func, nd ast.Node) bool { // the function and the helpers extracted from it
+			info := hf.Pkg.TypesInfo
 			as, ok := nd.(*ast.AssignStmt)
 			if !ok || len(as.Lhs) != 1 || len(as.Rhs) != 1 {
 				return true
@@ -246,10 +246,10 @@ func r144Required(c *an.Ctx) {
 		if f == nil {
 			continue
 		}
-		info := f.Pkg.TypesInfo
 		ok := false
 		var why []string
-		ast.Inspect(f.Decl.Body, func(nd ast.Node) bool {
+		c.InspectAll(f, func(hf *an.Func, nd ast.Node) bool { // the function and the helpers extracted from it
+			info := hf.Pkg.TypesInfo
 			rs, isR := nd.(*ast.RangeStmt)
 			if !isR {
 				return true
